@@ -89,6 +89,10 @@ type SecIn struct {
 	Name    string `json:"name"`
 	Type    string `json:"type"` // tls ca jwk htpasswd oidc apikey opaque
 	Invalid bool   `json:"invalid"`
+	// History "deleted": the Secret existed (valid or, with Invalid, invalid), was never referenced by
+	// any resource, and was DELETED before the resource of the case arrived.  Driven through the real
+	// LocalSecretStore.AddOrUpdateSecret / DeleteSecret; for the model the Secret does not exist.
+	History string `json:"history,omitempty"`
 	// outputs
 	Valid  bool `json:"valid"`  // secrets.ValidateSecret == nil
 	Stored bool `json:"stored"` // handed to the store (supported type)
@@ -644,6 +648,9 @@ func runWorld(w *World) (obs Obs) {
 		s := buildSecret(w.Secrets[i])
 		w.Secrets[i].Valid = secrets.ValidateSecret(s) == nil
 		w.Secrets[i].Stored = v.AddSecret(s)
+		if w.Secrets[i].History == "deleted" {
+			v.DeleteSecret(s.Namespace + "/" + s.Name)
+		}
 	}
 	for i := range w.Policies {
 		p := buildPolicy(w.Policies[i])
@@ -826,7 +833,13 @@ const ns = "default"
 
 var kinds = []string{"access", "rate", "jwt", "jwks", "basic", "imtls", "emtls", "oidc", "apikey", "waf", "wafb"}
 var scopes = []string{"server", "route", "subroute", "inherited"}
-var positions = []string{"alone", "preceded", "followed", "shadowed"}
+// samename-*: two references with the same NAME in different namespaces in one list:
+//   samename-other-bad  [{name: p-bad} -> default/p-bad usable accessControl, {name: p-bad, namespace: other} -> the unusable one]
+//   samename-own-bad    [{name: p-bad, namespace: other} -> other/p-bad usable accessControl, {name: p-bad} -> the unusable one]
+//   samename-bad-first  [{name: p-bad} -> the unusable one, {name: p-bad, namespace: other} -> usable]
+var positions = []string{"alone", "preceded", "followed", "shadowed", "samename-other-bad", "samename-own-bad", "samename-bad-first"}
+
+const otherNS = "other"
 
 // expected secret type of slot 1 / slot 2 of a kind
 func slotType(kind string, slot int) string {
@@ -864,7 +877,7 @@ func modesOf(kind string) []string {
 	m := []string{"ok", "pol-missing", "pol-invalid", "pol-class"}
 	for s := 1; s <= nslots(kind); s++ {
 		p := fmt.Sprintf("s%d-", s)
-		m = append(m, p+"missing", p+"invalid", p+"unsupported", p+"wrong-invalid")
+		m = append(m, p+"missing", p+"deleted", p+"deleted-invalid", p+"invalid", p+"unsupported", p+"wrong-invalid")
 		for _, t := range supportedTypes {
 			if t != slotType(kind, s) {
 				m = append(m, p+"wrong-"+t)
@@ -898,7 +911,11 @@ func realKind(kind string) string {
 
 // addPolicyOfKind appends a usable policy of the kind (with its own usable dependencies) to the
 // world and returns its name.
-func addPolicyOfKind(w *World, kind, name string) *PolIn {
+func addPolicyOfKind(w *World, kind, name string) *PolIn { return addPolicyOfKindNS(w, kind, name, ns) }
+
+// addPolicyOfKindNS does the same in a given namespace (its Secrets and App Protect resources
+// live in that namespace too, as the code resolves them relative to the policy).
+func addPolicyOfKindNS(w *World, kind, name, ns string) *PolIn {
 	p := PolIn{NS: ns, Name: name, Kind: realKind(kind)}
 	for s := 1; s <= nslots(kind); s++ {
 		sn := fmt.Sprintf("%s-s%d", name, s)
@@ -956,8 +973,12 @@ func dropAP(w *World, name string) {
 func productWorld(r *vh.Rng, g Gen, plus bool) World {
 	w := World{Plus: plus, Class: "nginx", Bundles: []string{"ok.tgz", "oklog.tgz"}}
 	w.Secrets = append(w.Secrets, SecIn{NS: ns, Name: "tls-ok", Type: "tls"})
-	bad := addPolicyOfKind(&w, g.Kind, "p-bad")
-	badRefs := []RefIn{{Name: "p-bad"}}
+	badNS, refNS := ns, ""
+	if g.Pos == "samename-other-bad" {
+		badNS, refNS = otherNS, otherNS
+	}
+	bad := addPolicyOfKindNS(&w, g.Kind, "p-bad", badNS)
+	badRefs := []RefIn{{NS: refNS, Name: "p-bad"}}
 	specRefs := []RefIn{}
 	tls := true
 	mode := g.Mode
@@ -973,12 +994,12 @@ func productWorld(r *vh.Rng, g Gen, plus bool) World {
 		tls = false
 	case mode == "tier-conflict":
 		bad.RlGroup, bad.RlDefault = "sub", true
-		w.Policies = append(w.Policies, PolIn{NS: ns, Name: "p-bad2", Kind: "rate", RlGroup: "sub", RlDefault: true})
-		badRefs = append(badRefs, RefIn{Name: "p-bad2"})
+		w.Policies = append(w.Policies, PolIn{NS: badNS, Name: "p-bad2", Kind: "rate", RlGroup: "sub", RlDefault: true})
+		badRefs = append(badRefs, RefIn{NS: refNS, Name: "p-bad2"})
 	case mode == "second-oidc":
 		addPolicyOfKind(&w, "oidc", "p-first")
 		if g.Scope == "server" {
-			badRefs = []RefIn{{Name: "p-first"}, {Name: "p-bad"}}
+			badRefs = []RefIn{{Name: "p-first"}, {NS: refNS, Name: "p-bad"}}
 		} else {
 			specRefs = append(specRefs, RefIn{Name: "p-first"})
 		}
@@ -1009,6 +1030,10 @@ func productWorld(r *vh.Rng, g Gen, plus bool) World {
 		switch {
 		case what == "missing":
 			dropSecret(&w, sn)
+		case what == "deleted":
+			sec.History = "deleted"
+		case what == "deleted-invalid":
+			sec.History, sec.Invalid = "deleted", true
 		case what == "invalid":
 			sec.Invalid = true
 		case what == "unsupported":
@@ -1037,6 +1062,15 @@ func productWorld(r *vh.Rng, g Gen, plus bool) World {
 	case "shadowed":
 		addPolicyOfKind(&w, g.Kind, "p-same")
 		scopeRefs = append([]RefIn{{Name: "p-same"}}, badRefs...)
+	case "samename-other-bad":
+		addPolicyOfKindNS(&w, "access", "p-bad", ns)
+		scopeRefs = append([]RefIn{{Name: "p-bad"}}, badRefs...)
+	case "samename-own-bad":
+		addPolicyOfKindNS(&w, "access", "p-bad", otherNS)
+		scopeRefs = append([]RefIn{{NS: otherNS, Name: "p-bad"}}, badRefs...)
+	case "samename-bad-first":
+		addPolicyOfKindNS(&w, "access", "p-bad", otherNS)
+		scopeRefs = append(append([]RefIn{}, badRefs...), RefIn{NS: otherNS, Name: "p-bad"})
 	}
 	shape := vh.Pick(r, []string{"pass", "pass", "splits", "matches", "return", "grpc", "errpage"})
 	vs := &VSIn{NS: ns, Name: "vs", Host: "h.example.com", TLS: tls, TLSName: "tls-ok", Policies: specRefs}
@@ -1074,7 +1108,7 @@ func productGens() []Gen {
 
 // ---------------------------------------------------------------- TLS and Ingress streams
 
-var tlsModes = []string{"none", "ok", "missing", "invalid", "unsupported", "wrong-invalid", "wrong-ca", "wrong-jwk", "wrong-htpasswd", "wrong-oidc", "wrong-apikey", "empty", "empty-wildcard"}
+var tlsModes = []string{"none", "ok", "missing", "deleted", "deleted-invalid", "invalid", "unsupported", "wrong-invalid", "wrong-ca", "wrong-jwk", "wrong-htpasswd", "wrong-oidc", "wrong-apikey", "empty", "empty-wildcard"}
 
 // tlsSecret applies a TLS-secret mode: returns (tls configured, secret name, wildcard) and adds the secret.
 func tlsSecret(w *World, mode string) (bool, string) {
@@ -1091,6 +1125,10 @@ func tlsSecret(w *World, mode string) (bool, string) {
 	}
 	s := SecIn{NS: ns, Name: "tls-x", Type: "tls"}
 	switch {
+	case mode == "deleted":
+		s.History = "deleted"
+	case mode == "deleted-invalid":
+		s.History, s.Invalid = "deleted", true
 	case mode == "invalid":
 		s.Invalid = true
 	case mode == "unsupported":
@@ -1111,7 +1149,7 @@ func vstlsWorld(mode string, plus bool) World {
 	return w
 }
 
-var authModes = []string{"ok", "missing", "invalid", "unsupported", "wrong-invalid", "wrong-tls", "wrong-ca", "wrong-jwk", "wrong-htpasswd", "wrong-oidc", "wrong-apikey"}
+var authModes = []string{"ok", "missing", "deleted", "deleted-invalid", "invalid", "unsupported", "wrong-invalid", "wrong-tls", "wrong-ca", "wrong-jwk", "wrong-htpasswd", "wrong-oidc", "wrong-apikey"}
 
 func authSecret(w *World, name, want, mode string) bool {
 	if mode == "missing" {
@@ -1120,6 +1158,10 @@ func authSecret(w *World, name, want, mode string) bool {
 	s := SecIn{NS: ns, Name: name, Type: want}
 	switch {
 	case mode == "ok":
+	case mode == "deleted":
+		s.History = "deleted"
+	case mode == "deleted-invalid":
+		s.History, s.Invalid = "deleted", true
 	case mode == "invalid":
 		s.Invalid = true
 	case mode == "unsupported":
@@ -1191,51 +1233,70 @@ func randomWorld(r *vh.Rng) World {
 	// a pool of policies, each in a random state
 	pool := []string{}
 	poolKinds := []string{"access", "access", "rate", "rate", "jwt", "jwt", "jwks", "basic", "basic", "imtls", "emtls", "emtls", "oidc", "oidc", "apikey", "apikey", "waf", "wafb"}
+	// the same names exist in two namespaces, each object in its own random state
 	for i, k := range poolKinds {
 		name := fmt.Sprintf("p%d-%s", i, k)
 		pool = append(pool, name)
-		st := r.Intn(10)
-		if st == 0 {
-			continue // missing
-		}
-		p := addPolicyOfKind(&w, k, name)
-		switch st {
-		case 1:
-			p.Invalid = true
-		case 2:
-			p.Class = "other-class"
-		}
-		if k == "rate" && w.Plus && r.Chance(1, 2) {
-			p.RlGroup, p.RlDefault = "sub", r.Chance(2, 3)
-		}
-		for s := 1; s <= nslots(k); s++ {
-			sn := fmt.Sprintf("%s-s%d", name, s)
-			sec := findSecret(&w, sn)
-			switch r.Intn(9) {
-			case 0:
-				dropSecret(&w, sn)
-			case 1:
-				sec.Invalid = true
-			case 2:
-				sec.Type = vh.Pick(r, append([]string{"opaque"}, supportedTypes...))
+		for _, nsp := range []string{ns, otherNS} {
+			st := r.Intn(10)
+			if st == 0 || (nsp == otherNS && r.Bool()) {
+				continue // missing
 			}
-		}
-		if k == "waf" {
-			switch r.Intn(6) {
-			case 0:
-				dropAP(&w, name+"-ap")
+			p := addPolicyOfKindNS(&w, k, name, nsp)
+			switch st {
 			case 1:
-				dropAP(&w, name+"-lc")
+				p.Invalid = true
 			case 2:
-				for i := range w.AP {
-					if w.AP[i].Name == name+"-lc" {
-						w.AP[i].Invalid = true
+				p.Class = "other-class"
+			}
+			if k == "rate" && w.Plus && r.Chance(1, 2) {
+				p.RlGroup, p.RlDefault = "sub", r.Chance(2, 3)
+			}
+			for s := 1; s <= nslots(k); s++ {
+				sn := fmt.Sprintf("%s-s%d", name, s)
+				var sec *SecIn
+				for j := range w.Secrets {
+					if w.Secrets[j].Name == sn && w.Secrets[j].NS == nsp {
+						sec = &w.Secrets[j]
 					}
 				}
+				switch r.Intn(10) {
+				case 0:
+					sec.History = "deleted" // as good as missing
+				case 1:
+					sec.Invalid = true
+				case 2:
+					sec.Type = vh.Pick(r, append([]string{"opaque"}, supportedTypes...))
+				case 3:
+					sec.History, sec.Invalid = "deleted", r.Bool()
+				}
 			}
-		}
-		if k == "wafb" && r.Chance(1, 5) {
-			p.Bundle = "nope.tgz"
+			if k == "waf" {
+				mark := func(n string, drop bool) {
+					var out []APIn
+					for _, a := range w.AP {
+						if a.Name == n && a.NS == nsp {
+							if drop {
+								continue
+							}
+							a.Invalid = true
+						}
+						out = append(out, a)
+					}
+					w.AP = out
+				}
+				switch r.Intn(6) {
+				case 0:
+					mark(name+"-ap", true)
+				case 1:
+					mark(name+"-lc", true)
+				case 2:
+					mark(name+"-lc", false)
+				}
+			}
+			if k == "wafb" && r.Chance(1, 5) {
+				p.Bundle = "nope.tgz"
+			}
 		}
 	}
 	pick := func(max int) []RefIn {
@@ -1244,14 +1305,36 @@ func randomWorld(r *vh.Rng) World {
 		seen := map[string]bool{}
 		for i := 0; i < n; i++ {
 			rf := RefIn{Name: vh.Pick(r, pool)}
-			if seen[rf.Name] { // the VirtualServer validator rejects a key referenced twice in one list
+			switch r.Intn(6) {
+			case 0:
+				rf.NS = ns
+			case 1, 2:
+				rf.NS = otherNS
+			}
+			key := rf.NS + "/" + rf.Name
+			if rf.NS == "" {
+				key = ns + "/" + rf.Name
+			}
+			if seen[key] { // the VirtualServer validator rejects a KEY referenced twice in one list
 				continue
 			}
-			seen[rf.Name] = true
-			if r.Chance(1, 6) {
-				rf.NS = ns
-			}
+			seen[key] = true
 			out = append(out, rf)
+			// now and then the same name again in the other namespace, right behind it
+			if r.Chance(1, 5) {
+				o := RefIn{NS: otherNS, Name: rf.Name}
+				if rf.NS == otherNS {
+					o.NS = ""
+				}
+				ok := o.NS + "/" + o.Name
+				if o.NS == "" {
+					ok = ns + "/" + o.Name
+				}
+				if !seen[ok] {
+					seen[ok] = true
+					out = append(out, o)
+				}
+			}
 		}
 		return out
 	}
